@@ -70,6 +70,7 @@ def run(ctx):
         c02.report(ctx, res)
     # loop tiling (symbolic, real integrate) ...
     c02.purity_obligations(ctx)      # the step analysed above is the step taken at every point of a solve
+    c02.aliasing_obligations(ctx)    # ... also for user SDEs that hand back live tensors (the state, stored coefficients)
     # adaptive stepping: accepted steps tile [ts[0], ts[-1]], each is the two-half-step solution over exactly its own interval,
     # rejected trials leave (t, y, extra) untouched (the C14 obligations, discharged here as the lemma convergence rests on)
     from . import c14
@@ -153,7 +154,7 @@ def replay(data):
         res = tiling_task(tuple(r['task']))
         print('replay C01 tiling:', res['bad'])
         return bool(res['bad'])
-    if r.get('kind') == 'purity':
+    if r.get('kind') in ('purity', 'aliasing'):
         return c02.replay(data)
     if r.get('kind') == 'adaptive':
         from . import c14
